@@ -11,7 +11,9 @@ git apply $O/patch$N.diff || { echo "$ID$N patch does not apply"; exit 1; }
 ( eval "$CMD" ) > $O/confirm$N.patched.log 2>&1; R2=$?
 # existing tests of the canister crate with the patch only
 git checkout -q -- . && git clean -fdq && git apply $O/patch$N.diff
-cargo test --offline -p ic-btc-canister --lib > $O/confirm$N.suite.log 2>&1
-SUITE=$(grep -E "^test result" $O/confirm$N.suite.log | head -1)
+PKG=$(echo "$CMD" | grep -oE -- "-p [a-z-]+" | head -1 | cut -d' ' -f2)
+if [ "$PKG" = "ic-btc-canister" ]; then SUITEARGS="-p ic-btc-canister --lib"; else SUITEARGS="-p $PKG"; fi
+cargo test --offline $SUITEARGS --no-fail-fast > $O/confirm$N.suite.log 2>&1
+SUITE=$(grep -E "^test result" $O/confirm$N.suite.log | tr '\n' ' ' | sed 's/finished in [0-9.]*s//g')
 git checkout -q -- . && git clean -fdq
 echo "$ID$N demo_clean_rc=$R1 demo_patched_rc=$R2 suite_with_patch: $SUITE"
